@@ -6,7 +6,7 @@ cd "$(dirname "$0")/.."
 JOBS=3; [ "${1:-}" = "--jobs" ] && JOBS="$2"
 props_for() { # which checks to run for a change that targets property $1
   case "$1" in
-    C05) echo "C05 C10 C18 C16";; C06) echo "C06 C10 C18";; C10) echo "C10 C05 C06";;
+    C05) echo "C05 C10 C18 C16";; C06) echo "C06 C05 C10 C18";; C10) echo "C10 C05 C06";;
     C16) echo "C16 C10 C17";; C17) echo "C17 C16 C18";; C18) echo "C18 C17 C16";;
   esac
 }
